@@ -32,6 +32,111 @@ theorem next_unchecked_loop :
       ["for _1.index < _2 {", "if _1.aborted {", "return", "}", "_1.handlers[_1.index](_1)", "_1.index++", "}", "}"] := by
   decide
 
+/-! ### the extracted `Next`, interpreted, against the machine (`Model/Chain.lean`)
+
+The token list is parsed into a shape — is `index++` the first statement, which tests stand (in which order) between
+the loop bound and the call in the loop with cancellation checks and in the loop without, does `index++` follow the
+call — and the shape is given the obvious semantics: "from the loop head, which position is called next, if any".
+`next_interpreted_agrees_with_loopHead` proves that semantics equal to what `Chain.loopHead` does, for every
+configuration and state; `callNext_loop_step_shape` ties the two increments. An edit of `Next` changes the parsed shape
+(or makes the parse fail), an edit of `loopHead` / `callNext` / `step` breaks the agreement. -/
+
+inductive Guard where
+  /-- `if c.aborted { return }` -/
+  | aborted
+  /-- `if err := c.Request.Context().Err(); err != nil { return }` -/
+  | cancelled
+  deriving Repr, DecidableEq
+
+structure NextShape where
+  incFirst : Bool
+  checked : List Guard
+  unchecked : List Guard
+  incAfterCallChecked : Bool
+  incAfterCallUnchecked : Bool
+  deriving Repr, DecidableEq
+
+/-- the guards in front of the call, then `call; index++; }` -/
+def parseLoopBody : Nat → List String → Option (List Guard × Bool × List String)
+  | 0, _ => none
+  | fuel+1, toks =>
+    match toks with
+    | "if _1.aborted {" :: "return" :: "}" :: rest =>
+      (parseLoopBody fuel rest).map fun (g, i, r) => (Guard.aborted :: g, i, r)
+    | "_3 := _1.Request.Context().Err()" :: "if _3 != nil {" :: "return" :: "}" :: rest =>
+      (parseLoopBody fuel rest).map fun (g, i, r) => (Guard.cancelled :: g, i, r)
+    | "_1.handlers[_1.index](_1)" :: "_1.index++" :: "}" :: rest => some ([], true, rest)
+    | "_1.handlers[_1.index](_1)" :: "}" :: rest => some ([], false, rest)
+    | _ => none
+
+def parseNext (toks : List String) : Option NextShape :=
+  match toks with
+  | "_1.index++" :: "_2 := int32(len(_1.handlers))" :: "if _1.router != nil && _1.router.checkCancellation {" ::
+      "for _1.index < _2 {" :: rest =>
+    match parseLoopBody 8 rest with
+    | some (gc, ic, "}" :: "else {" :: "for _1.index < _2 {" :: rest2) =>
+      match parseLoopBody 8 rest2 with
+      | some (gu, iu, ["}"]) => some { incFirst := true, checked := gc, unchecked := gu,
+                                        incAfterCallChecked := ic, incAfterCallUnchecked := iu }
+      | _ => none
+    | _ => none
+  | _ => none
+
+/-- what the extracted `Next` is -/
+theorem next_parses :
+    parseNext ctx_next = some { incFirst := true, checked := [.aborted, .cancelled], unchecked := [.aborted],
+                                incAfterCallChecked := true, incAfterCallUnchecked := true } := by decide
+
+def guardFires (aborted cancelled : Bool) : Guard → Bool
+  | .aborted => aborted
+  | .cancelled => cancelled
+
+/-- semantics of a parsed loop: from the loop head with cursor `idx`, the position that is called next (`none` = the
+    loop is left: bound reached or a test returned) -/
+def headOf (sh : NextShape) (check : Bool) (idx : Int) (len : Nat) (aborted cancelled : Bool) : Option Nat :=
+  if 0 ≤ idx ∧ idx < len then
+    if ((if check then sh.checked else sh.unchecked).any (guardFires aborted cancelled)) then none else some idx.toNat
+  else none
+
+open Rivaas.Chain in
+/-- the machine's loop head as a decision -/
+def modelHead (cfg : Cfg) (progs : List Prog) (s : St) : Option Nat :=
+  if 0 ≤ s.idx ∧ s.idx < progs.length then (if s.stopped cfg then none else some s.idx.toNat) else none
+
+open Rivaas.Chain in
+/-- `loopHead` does exactly what `modelHead` says: it enters position `k` (pushes its frame under a `loop` frame and
+    records `enter k`) or leaves the state alone -/
+theorem loopHead_is_modelHead (cfg : Cfg) (progs : List Prog) (s : St) :
+    loopHead cfg progs s =
+      match modelHead cfg progs s with
+      | some k => { s with stack := Frame.fn k (progs.getD k default).fk (progs.getD k default).acts :: Frame.loop :: s.stack,
+                           trace := s.trace ++ [Ev.enter k] }
+      | none => s := by
+  unfold loopHead modelHead
+  split <;> (try split) <;> simp_all
+
+open Rivaas.Chain in
+/-- **The extracted `Next` loop, interpreted, is the machine's loop head** — for every configuration (checks on / off),
+    every chain and every state: the same position is called next, or none -/
+theorem next_interpreted_agrees_with_loopHead (cfg : Cfg) (progs : List Prog) (s : St) :
+    (parseNext ctx_next).map (fun sh => headOf sh cfg.check s.idx progs.length s.aborted s.cancelled) =
+      some (modelHead cfg progs s) := by
+  rw [next_parses]
+  obtain ⟨check, ab⟩ := cfg
+  obtain ⟨idx, aborted, cancelled, stack, trace, status, body, escaped⟩ := s
+  simp only [Option.map_some, headOf, modelHead, St.stopped]
+  cases check <;> cases aborted <;> cases cancelled <;> simp [guardFires]
+
+open Rivaas.Chain in
+/-- the two increments: `Next` starts with `index++` (`callNext`), and `index++` follows the call inside the loop (the
+    machine's step on a `loop` frame) -/
+theorem callNext_loop_step_shape (cfg : Cfg) (progs : List Prog) (s : St) (rest : List Frame) :
+    (parseNext ctx_next).map (fun sh => (sh.incFirst, sh.incAfterCallChecked, sh.incAfterCallUnchecked)) = some (true, true, true) ∧
+    callNext cfg progs s = loopHead cfg progs { s with idx := s.idx + 1 } ∧
+    step cfg progs { s with stack := Frame.loop :: rest } =
+      loopHead cfg progs { s with idx := s.idx + 1, stack := rest } := by
+  refine ⟨by rw [next_parses]; rfl, rfl, rfl⟩
+
 /-- `Abort` only sets the flag (`step`, act `.abort`) -/
 theorem abort_sets_flag : ctx_abort = ["_1.aborted = true"] := by decide
 
